@@ -176,9 +176,17 @@ def r03a(model, ctx):
     # edge_waker: wakes iff next == polarity
     fe = model.func(f"{PYRTL}::edge_waker.waker")
     ifs = [s for s in fe.body if isinstance(s, ast.If)]
-    ok = len(ifs) == 1 and pmatch("next == polarity", ifs[0].test) is not None and \
-        any(unparse(s) == "process.runnable = True" for s in ifs[0].body) and \
-        isinstance(fe.body[-1], ast.Return) and fe.body[-1].value.value is True
+    # by path: the flag is set on exactly the paths where next == polarity holds, and every path returns True
+    from ..engine.symx import run_paths as _rp
+    ps = _rp(list(fe.body))
+    ok = bool(ps)
+    for p_ in ps:
+        sets = any(isinstance(e, ast.Assign) and unparse(e.targets[0]) == "process.runnable" and unparse(e.value) == "True" for e in p_.effects)
+        conds = {(unparse(t), pol) for t, pol in p_.conds_open()}
+        eq = ("next == polarity", True) in conds or ("next != polarity", False) in conds or ("polarity == next", True) in conds
+        ne = ("next == polarity", False) in conds or ("next != polarity", True) in conds or ("polarity == next", False) in conds
+        need(eq or ne, f"edge_waker: unrecognised wake condition {sorted(conds)}")
+        ok = ok and sets == eq and p_.how == "return" and p_.ret is not None and unparse(p_.ret) == "True"
     ctx.check(ok, R, "edge_waker", "wakes the process iff the new value equals the polarity; stays registered",
               "edge_waker must mark the process runnable exactly when next == polarity and return True", f"{PYRTL}:{fe.lineno}")
     # PyRTLProcess for a clocked domain is not initially runnable
